@@ -408,6 +408,9 @@ def run(ctx):  # noqa: F811
     # natural binning of the partner: population and unique k-lengths (shared with C08)
     from .c08 import r08_13
     r08_13(ctx, ctx.model, rid13="R10.8", rid14="R10.9")
+    # power operators on a sub-space are partial-space diagonals (shared with C01)
+    from .c01 import r01_6
+    r01_6(ctx, ctx.model, rid="R10.10")
 
 
 def r10_7(ctx, m):
